@@ -32,7 +32,11 @@ use verif_harness::util::*;
 use verif_harness::{Component, Mon, Rng, Tier};
 
 const HOST: &str = "127.0.0.1";
-const MOD_RS: &str = include_str!("/repo/src/sender/mod.rs");
+/// Source text of the event loop as it is NOW in the repository under test (`VERIF_REPO`, default /repo).
+fn mod_rs() -> String {
+    let root = std::env::var("VERIF_REPO").unwrap_or_else(|_| "/repo".to_string());
+    std::fs::read_to_string(format!("{root}/src/sender/mod.rs")).unwrap_or_default()
+}
 const GHOST_LO: u64 = 1_000_000;
 const GHOST_HI: u64 = 2_000_000;
 
@@ -283,7 +287,7 @@ fn norm_ws(s: &str) -> String {
 
 /// The event-loop arms mirrored by `sighup` / `tick` must still read like this in the source.
 fn glue_problems() -> Vec<String> {
-    let src = norm_ws(MOD_RS);
+    let src = norm_ws(&mod_rs());
     let mut p = Vec::new();
     let need = [
         "let mut pending_changes: Option<PendingConnectionChanges> = None;",
@@ -445,6 +449,181 @@ impl Reload {
     }
 
     /// Generator side: connect outcome of one address, measured on the real code (cached).
+    /// One whole-loop scenario (op `evloop`): start the real sender on loopback with `ips`, then for every
+    /// step write the file and raise SIGHUP at this process, wait `gap` ms; finally wait (<= 20 s) for the
+    /// uplink set published in the telemetry snapshot to become the address set of the last file.
+    fn run_evloop(&mut self, ips: &str, steps: &str, mon: &mut Mon) {
+        use srtla_send::config::DynamicConfig;
+        use srtla_send::sender::run_sender_with_config;
+        use srtla_send::stats::SharedStats;
+        use srtla_send::subscriptions::SubscriptionHub;
+        use std::time::{Duration, Instant};
+        let Some(initial) = ips.strip_prefix("ips=").and_then(parse_ips) else {
+            mon.count("evloop-unparsed");
+            return;
+        };
+        let mut plan: Vec<(String, u64)> = Vec::new();
+        for st in steps.strip_prefix("steps=").unwrap_or("").split(';') {
+            let Some((h, g)) = st.split_once('@') else {
+                mon.count("evloop-unparsed");
+                return;
+            };
+            let (Some(bytes), Ok(g)) = (parse_hex(h), g.parse::<u64>()) else {
+                mon.count("evloop-unparsed");
+                return;
+            };
+            plan.push((String::from_utf8_lossy(&bytes).into_owned(), g.min(5000)));
+        }
+        if initial.is_empty() || plan.is_empty() || plan.len() > 6 {
+            mon.count("evloop-unparsed");
+            return;
+        }
+        let parsable = |t: &str| -> Vec<IpAddr> {
+            let mut v: Vec<IpAddr> = Vec::new();
+            for l in t.lines() {
+                if let Ok(ip) = l.trim().parse::<IpAddr>() {
+                    if !v.contains(&ip) {
+                        v.push(ip);
+                    }
+                }
+            }
+            v
+        };
+        // the oracle needs every file applicable and every address bindable on this machine
+        let mut all: Vec<IpAddr> = initial.clone();
+        for (t, _) in &plan {
+            let v = parsable(t);
+            if v.is_empty() {
+                mon.count("evloop-skipped:refusable-file");
+                return;
+            }
+            all.extend(v);
+        }
+        for ip in &all {
+            if !self.probe(*ip) {
+                mon.count("evloop-skipped:unbindable");
+                return;
+            }
+        }
+        let want: BTreeSet<IpAddr> = parsable(&plan[plan.len() - 1].0).into_iter().collect();
+        let path = self.dir.join("evloop_ips.txt");
+        let init_text: String = initial.iter().map(|i| format!("{i}\n")).collect();
+        if std::fs::write(&path, init_text).is_err() {
+            mon.count("evloop-skipped:io");
+            return;
+        }
+        let Ok(receiver) = std::net::UdpSocket::bind("127.0.0.1:0") else {
+            mon.count("evloop-skipped:io");
+            return;
+        };
+        let receiver_port = receiver.local_addr().map(|a| a.port()).unwrap_or(0);
+        let srt_port = std::net::UdpSocket::bind("[::]:0").ok().and_then(|s| s.local_addr().ok()).map(|a| a.port()).unwrap_or(0);
+        if receiver_port == 0 || srt_port == 0 {
+            mon.count("evloop-skipped:io");
+            return;
+        }
+        verif_clock::set(None);
+        let stats = SharedStats::new();
+        let live = |s: &SharedStats| -> BTreeSet<IpAddr> { s.get().links.iter().map(|l| l.ip).collect() };
+        let init_set: BTreeSet<IpAddr> = initial.iter().copied().collect();
+        let file = path.to_string_lossy().into_owned();
+        let outcome: Result<BTreeSet<IpAddr>, &'static str> = self.rt.block_on(async {
+            let sender = {
+                let stats = stats.clone();
+                let file = file.clone();
+                tokio::spawn(async move {
+                    let binder: Arc<dyn UplinkBinder> = Arc::new(SourceIpBinder);
+                    run_sender_with_config(
+                        srt_port,
+                        HOST,
+                        receiver_port,
+                        &file,
+                        DynamicConfig::new(),
+                        stats,
+                        srtla_core::priority::CriticalWindow::new(),
+                        SubscriptionHub::new(),
+                        binder,
+                    )
+                    .await
+                })
+            };
+            // the first housekeeping tick publishes the first snapshot (and the SIGHUP stream exists by then)
+            let t0 = Instant::now();
+            while live(&stats) != init_set {
+                if t0.elapsed() > Duration::from_secs(20) || sender.is_finished() {
+                    sender.abort();
+                    let _ = sender.await;
+                    return Err("sender did not come up");
+                }
+                tokio::time::sleep(Duration::from_millis(10)).await;
+            }
+            for (text, gap) in &plan {
+                if std::fs::write(&file, text).is_err() {
+                    sender.abort();
+                    let _ = sender.await;
+                    return Err("cannot write the ips file");
+                }
+                unsafe {
+                    libc::raise(libc::SIGHUP);
+                }
+                tokio::time::sleep(Duration::from_millis(*gap)).await;
+            }
+            // settled = equal to the expected set for two consecutive housekeeping periods
+            let t1 = Instant::now();
+            let mut ok_since: Option<Instant> = None;
+            let mut seen = live(&stats);
+            while t1.elapsed() < Duration::from_secs(20) {
+                seen = live(&stats);
+                if seen == want {
+                    if ok_since.is_none() {
+                        ok_since = Some(Instant::now());
+                    }
+                    if ok_since.is_some_and(|t| t.elapsed() > Duration::from_millis(2300)) {
+                        break;
+                    }
+                } else {
+                    ok_since = None;
+                }
+                tokio::time::sleep(Duration::from_millis(25)).await;
+            }
+            let finished = sender.is_finished();
+            sender.abort();
+            let _ = sender.await;
+            if finished { Err("sender exited") } else { Ok(seen) }
+        });
+        drop(receiver);
+        match outcome {
+            Err(why) => {
+                // environment trouble (ports, load): never an alarm
+                mon.count(match why {
+                    "sender did not come up" => "evloop-skipped:not-up",
+                    "sender exited" => "evloop-skipped:sender-exited",
+                    _ => "evloop-skipped:io",
+                });
+            }
+            Ok(seen) => {
+                mon.count("evloop-scenario");
+                mon.nontrivial();
+                if plan.len() >= 2 {
+                    mon.count("evloop-scenario:several-sighups");
+                }
+                if want == init_set && plan.len() >= 2 {
+                    mon.count("evloop-scenario:edit-reverted");
+                }
+                if seen != want {
+                    mon.fail(
+                        "C19",
+                        "evloop-applied-list",
+                        format!(
+                            "real event loop: started with {init_set:?}; {} reload(s), every file applicable, the last one lists {want:?}; 20 s later the sender runs {seen:?}",
+                            plan.len()
+                        ),
+                    );
+                }
+            }
+        }
+    }
+
     fn probe(&mut self, ip: IpAddr) -> bool {
         if let Some(b) = self.probe_cache.get(&ip) {
             return *b;
@@ -824,6 +1003,41 @@ impl Component for Reload {
         let port = 5000 + rng.below(3) as u16;
         let mut now: u64 = 1_000_000 + rng.below(1000);
         let pool5 = Self::pool(5);
+        if idx % 3000 == 1500 {
+            // whole-loop scenario: every file of the scenario is applicable (no refusals), so whatever the
+            // timing, once things settle the uplink set is the address set of the LAST file
+            let n0 = rng.range(1, 3) as usize;
+            let mut initial: Vec<IpAddr> = Vec::new();
+            while initial.len() < n0 {
+                let ip = *rng.pick(&pool5);
+                if !initial.contains(&ip) {
+                    initial.push(ip);
+                }
+            }
+            let mut steps: Vec<String> = Vec::new();
+            let nsteps = rng.range(1, 3);
+            for k in 0..nsteps {
+                let last = k + 1 == nsteps;
+                let target: Vec<IpAddr> = if last && nsteps >= 2 && rng.chance(1, 2) {
+                    initial.clone() // an edit reverted before (or after) it was applied
+                } else {
+                    let m = rng.range(1, 3) as usize;
+                    let mut t: Vec<IpAddr> = Vec::new();
+                    while t.len() < m {
+                        let ip = *rng.pick(&pool5);
+                        if !t.contains(&ip) {
+                            t.push(ip);
+                        }
+                    }
+                    t
+                };
+                let noise = rng.chance(1, 3);
+                let text = Self::gen_file_text(rng, &target, noise);
+                let gap = if last { 0 } else { *rng.pick(&[150u64, 200, 300, 1300]) };
+                steps.push(format!("{}@{gap}", to_hex(text.as_bytes())));
+            }
+            return vec![format!("evloop ips={} steps={}", join_list(&initial), steps.join(";"))];
+        }
         if idx < pairs {
             // (c) exhaustive subset pairs
             let code = idx;
@@ -1000,6 +1214,12 @@ impl Component for Reload {
             }
         }
         match toks {
+            ["evloop", ips, steps] => {
+                // the REAL event loop (`run_sender_with_config`) on loopback, real ips file, real SIGHUPs:
+                // no model state, constant reply (the model driver answers the same); monitors only
+                self.run_evloop(ips, steps, mon);
+                "evloop-ok".into()
+            }
             ["start", rest @ ..] => {
                 let (Some(port), Some(now), Some(ips), Some(table)) = (
                     kv_parse::<u16>(rest, "port"),
